@@ -105,10 +105,17 @@ def energy_tokens(es: dict, n: int) -> list:
     rows = []
     for k in range(n):
         vals = rs.normal(0.0, 1.0, size=ncol + 1)
+        uni = rs.uniform(-1.0, 1.0)
         row = ["%12.6f" % (0.0 if es.get("zero_time", True) else k * 0.002)]
         for c in range(ncol):
-            v = vals[c + 1] * (es["sigma"] if c == target else 50.0) + (es.get("offset", 0.0) if c == target else 0.0)
-            row.append(_fmt_number(v, es["numfmt"]))
+            if c == target and es.get("half_range"):
+                v = uni * es["half_range"]  # wide spread, all differences below the 500 kJ/mol cap
+            else:
+                v = vals[c + 1] * (es["sigma"] if c == target else 50.0) + (es.get("offset", 0.0) if c == target else 0.0)
+            if c == target and es.get("whole_numbers"):
+                row.append("%d" % int(round(v)))  # a column written without decimal points is read as integers
+            else:
+                row.append(_fmt_number(v, es["numfmt"]))
         rows.append(row)
     return rows
 
@@ -152,7 +159,8 @@ def write_orca_csv(path: str, es: dict, rows: list):
     target = es["legends"].index(es["column"])
     df = pd.DataFrame({"File": [f"trajectory/{str(i).zfill(10)}.out" for i in range(len(rows))],
                        "Functional": "PBE0", "Basis set": "def2-tzvp",
-                       es["column"]: [float(r[target + 1]) for r in rows]})
+                       es["column"]: [int(r[target + 1]) if es.get("whole_numbers") else float(r[target + 1])
+                                      for r in rows]})
     df.to_csv(path, index=False)
 
 
@@ -359,14 +367,33 @@ LEGEND_POOL = ["LJ (SR)", "Disper. corr.", "Coulomb (SR)", "Potential", "Kinetic
                "a  b", "(x)", "pot [kJ/mol]", "s1 legend", "LJ-14"]
 
 
+LEGEND_ALPHABET = ("abcdefghijklmnopqrstuvwxyzABCDEFGHIJKLMNOPQRSTUVWXYZ0123456789" + " .,;:!?()[]{}<>+-*/=_%&|~^$#@'`\\"
+                   + "  \t\x0b\x0c\x1c\x1d\x1e\x85\xa0\u2028\u2029\u00e9\u00b5\u00c5\u4e2d\u03a9")
+
+
+def gen_legend(rng: random.Random) -> str:
+    """Arbitrary legend text without quotes or line breaks (the statement's envelope)."""
+    return "".join(rng.choice(LEGEND_ALPHABET) for _ in range(rng.randint(1, 14)))
+
+
 def gen_energy_spec(rng: random.Random, sigma=None, fmt=None, simple: bool = False) -> dict:
     n_leg = rng.choice([1, 2, 4, 4, 5, 10, rng.randint(1, 10)])
     legends = rng.sample(LEGEND_POOL, n_leg)
+    for i in range(n_leg):
+        if rng.random() < 0.3:
+            cand = gen_legend(rng)
+            if cand not in legends and cand != "Time [ps]":
+                legends[i] = cand
     if "Potential" not in legends and rng.random() < 0.7:
         legends[rng.randrange(n_leg)] = "Potential"
     column = "Potential" if "Potential" in legends else rng.choice(legends)
     n_hash = rng.choice([13, 13, 12, 0, 1, rng.randint(0, 13)])
+    half_range = None
+    if sigma is None and rng.random() < 0.15:
+        half_range = rng.choice([120.0, 200.0, 240.0])
+    whole = sigma is None and rng.random() < 0.12
     return {"fmt": fmt or rng.choice(["xvg", "xvg", "csv"]), "legends": legends, "column": column, "n_hash": n_hash,
+            "half_range": half_range, "whole_numbers": whole,
             "n_at": rng.choice([10, 10, 0, 3, 14, rng.randint(0, 12)]), "sigma": sigma if sigma is not None else rng.choice([0.5, 2, 3, 5, 20]),
             "offset": rng.choice([0.0, -40.0, 12.5]), "seed": rng.randrange(2 ** 32),
             "numfmt": "gmx" if simple else rng.choice(["gmx", "gmx", "gmx_e", "repr", "g17"]),
@@ -673,7 +700,12 @@ class PipelineCheck(Check):
         ncomp = connected_components(sparse.csr_array(Ad), directed=False)[0]
         if ncomp != 1:
             probes["disconnected_grid_skipped"] = 1
-        well = (sc["energy"]["sigma"] <= 3 and T >= 250 and n >= 8 and 1 <= s["k"] <= n - 2
+        if sc["energy"].get("half_range"):
+            probes["wide_energy_spread_below_cap"] = 1
+        if sc["energy"].get("whole_numbers"):
+            probes["integer_valued_energy_column"] = 1
+        well = (sc["energy"]["sigma"] <= 3 and not sc["energy"].get("half_range") and T >= 250 and n >= 8
+                and 1 <= s["k"] <= n - 2
                 and n <= sc["dense_cap"])
         if not well:
             probes["eigen_oracle_skipped_ill_conditioned_or_small"] = 1
